@@ -134,6 +134,14 @@ def canon(e: ast.expr) -> str:
                 test, body, orelse, flipped = ast.Compare(left=test.left, ops=[pos], comparators=test.comparators), orelse, body, True
             elif isinstance(test, ast.Compare) and len(test.ops) == 1 and isinstance(test.ops[0], ast.Eq) and isinstance(test.comparators[0], ast.Constant) and test.comparators[0].value == 0 and isinstance(test.left, ast.BinOp) and isinstance(test.left.op, ast.Mod):
                 test, body, orelse, flipped = test.left, orelse, body, True  # `i % 2 == 0` is `not i % 2`
+            elif isinstance(test, ast.Compare) and len(test.ops) == 1 and isinstance(test.ops[0], (ast.Lt, ast.LtE, ast.Gt, ast.GtE)):
+                # one polarity per ordering test: the spelling whose canonical fact sorts first
+                from ..norm import facts as _nf3
+
+                ft, ff = _nf3(test, True), _nf3(test, False)
+                if len(ft) == 1 and len(ff) == 1 and ff[0] < ft[0]:
+                    test, body, orelse = _negated(test), orelse, body
+                break
             elif isinstance(test, ast.BoolOp) and isinstance(test.op, ast.Or):
                 # De Morgan: a disjunctive test is stated as the conjunction of the negations
                 test, body, orelse, flipped = ast.BoolOp(op=ast.And(), values=[_negated(x) for x in test.values]), orelse, body, True
@@ -419,6 +427,56 @@ def _inline_locals(fn_node: ast.AST, stmts: list[ast.stmt], only_within: ast.AST
     return walk(stmts)
 
 
+_PROG: list = []
+
+
+def _inline_ctor_helpers(node: ast.AST) -> ast.AST:
+    """`C.helper(a)` where C.helper is a classmethod of the package whose body is `return cls(..)`
+    becomes the constructor call it abbreviates (`StepResult.fail(m)` is `StepResult(None, m)`)."""
+    if not _PROG:
+        return node
+    prog = _PROG[0]
+
+    class T(ast.NodeTransformer):
+        def visit_Call(self, c: ast.Call) -> ast.AST:
+            self.generic_visit(c)
+            f = c.func
+            if isinstance(f, ast.Attribute) and isinstance(f.value, ast.Name) and f.value.id[:1].isupper() and not c.keywords:
+                cands = [fn for k, fn in prog.funcs.items() if k.endswith(f"::{f.value.id}.{f.attr}")]
+                if len(cands) == 1:
+                    fn = cands[0]
+                    body = [x for x in fn.node.body if not (isinstance(x, ast.Expr) and isinstance(x.value, ast.Constant))]
+                    decos = {src(d) for d in fn.node.decorator_list}
+                    params = fn.params()
+                    if "classmethod" in decos and len(body) == 1 and isinstance(body[0], ast.Return) and isinstance(body[0].value, ast.Call) and isinstance(body[0].value.func, ast.Name) and body[0].value.func.id == params[0] and len(params) - 1 == len(c.args):
+                        m = dict(zip(params[1:], c.args))
+
+                        class S(ast.NodeTransformer):
+                            def visit_Name(self, n: ast.Name) -> ast.AST:
+                                if n.id in m:
+                                    return clone(m[n.id])
+                                if n.id == params[0]:
+                                    return ast.Name(id=f.value.id, ctx=ast.Load())
+                                return n
+
+                        return S().visit(clone(body[0].value))
+            return c
+
+    return ast.fix_missing_locations(T().visit(node))
+
+
+def _stmt_canon(t: ast.stmt) -> str | None:
+    """One spelling per simple statement (canonical value expressions): mirrored comparisons, De Morgan,
+    inverted conditional expressions and reordered commutative terms print alike."""
+    if isinstance(t, ast.Return):
+        return "return " + (canon(t.value) if t.value is not None else "None")
+    if isinstance(t, ast.Assign) and len(t.targets) == 1:
+        return f"{' '.join(src(t.targets[0]).split())} = {canon(t.value)}"
+    if isinstance(t, ast.Expr) and isinstance(t.value, ast.Call):
+        return canon(t.value)
+    return None
+
+
 class _PushNot(ast.NodeTransformer):
     """`not (A and B)` -> `not A or not B`, `not (A or B)` -> `not A and not B`, `not not A` -> `A`
     (operand order kept): the two spellings of one condition print alike."""
@@ -454,7 +512,11 @@ def _norm_stmts(stmts: list[ast.stmt], mapping: dict[str, str], fn_node: ast.AST
     for s in stmts:
         if isinstance(s, ast.Expr) and isinstance(s.value, ast.Constant):
             continue  # docstring
-        t = ast.fix_missing_locations(_PushNot().visit(_Renamer(mapping).visit(clone(s))))
+        t = ast.fix_missing_locations(_PushNot().visit(_Renamer(mapping).visit(_inline_ctor_helpers(clone(s)))))
+        ctext = _stmt_canon(t)
+        if ctext is not None:
+            out.append(ctext)
+            continue
         if isinstance(t, (ast.FunctionDef, ast.AsyncFunctionDef)):
             t.returns = None
         out.append(" ".join(src(t).split()))
@@ -506,6 +568,7 @@ SIBLINGS: list[tuple[str, str, dict[str, str], str]] = [
 
 def rule_rsib(prog: Program, report: Report, only: tuple[str, ...] | None = None, parts: tuple[str, ...] = ()) -> None:
     report.rules.append("RSIB")
+    _PROG[:] = [prog]
     for a, b, ren, what in SIBLINGS:
         if only is not None and not any(o in a for o in only):
             continue
@@ -609,6 +672,14 @@ def _apply_trio(prog: Program, report: Report) -> None:
         idx = next(i for i, s in enumerate(shapes) if s != shapes[0])
         d = next((x, y) for x, y in zip(shapes[0], shapes[idx]) if x != y)
         fn = prog.func(keys[idx])
+        from ..gates import new_names, view as _view
+
+        fresh = sorted(set().union(*[new_names(_view(prog, k)) for k in keys]))
+        if fresh:
+            # a local the reviewed functions did not have (`replacement = Slice(..)`): the statements are
+            # cut differently, the skeleton cannot be compared component by component
+            report.errors.append(f"RSIB: the node-level apply methods introduce {fresh}, which the reviewed tree did not have: the trio cannot be compared (found 0 time(s) in the reviewed shape)")
+            return
         report.violate("RSIB", fn, fn.node, f"{keys[idx].split('::')[1]} deviates from its siblings", f"the node-level steps share one skeleton (node_at miss => fail; rebuild with type.create; replace pos..pos+1 by Slice(.., 0, 0 if leaf else 1)); difference: `{d[0][:100]}` vs `{d[1][:100]}`", witness=keys, what="node-level apply skeleton")
 
 
